@@ -551,6 +551,40 @@ def extref_step(case, reg, toks, t, fails):
     return True
 
 
+def aux_step(case, reg, toks, t, fails):
+    """auxiliary element shapes: `clone_plain` (destructor-free elements with a counting Clone) and
+    `serde_zst` (zero-sized elements)."""
+    op = toks[1]
+    if t["outcome"] != "ok":
+        fails.append("%s %s ended %s" % (reg, op, t["outcome"]))
+        return True
+    if op == "clone_plain":
+        items = [x for x in toks[2].strip("[]").split(",") if x]
+        ents = []
+        for it in items:
+            k, _, v = it.partition("=")
+            for e in ents:
+                if e[0] == k:
+                    e[1] = v
+                    break
+            else:
+                ents.append([k, v])
+        n = len(ents)
+        isset = reg.startswith("s")
+        body = ",".join(e[0] if isset else "%s:%s" % (e[0], e[1]) for e in ents)
+        want = "[%d,%d,%d,[%s],1]" % (n, n, 0 if isset else n, body)
+        if t["ret"] != want:
+            fails.append("%s clone of %d plain entries reports %s, expected %s (len, key clones, value clones, entries, equal)"
+                         % (reg, n, t["ret"], want))
+    if op == "serde_zst":
+        n = min(int(toks[2]), 1)
+        want = "[%d,%d,%d]" % (n, n, n)
+        if t["ret"] != want:
+            fails.append("%s serde of %d zero-sized element(s) reports %s, expected %s (announced, serialized, decoded)"
+                         % (reg, n, t["ret"], want))
+    return True
+
+
 def clone_step(case, reg, toks, t, fails):
     src = case.state[reg]["ents"]
     dst = toks[2]
@@ -1051,6 +1085,8 @@ def run(prop, ops_path, impl_path, profile):
                             set_step(case, reg, toks, t, True, fails)
                         if "full" in fam and op in ("insert", "replace"):
                             set_step(case, reg, toks, t, True, fails)
+                    if (op == "clone_plain" and "clone" in fam) or (op == "serde_zst" and "serde" in fam):
+                        aux_step(case, reg, toks, t, fails)
                     if op == "extend_ref" and fam & {"set", "bulk", "uniq", "struct"}:
                         extref_step(case, reg, toks, t, fails)
                     if "bulk" in fam and op in ("from_iter", "extend"):
